@@ -73,6 +73,41 @@ def ob_exp_ctor(L, sizes, pos):
     return FnOb(inputs, run, max_paths=20000, explore_budget=600, tv_points=3)
 
 
+def ob_exp_copy(L, sizes):
+    """Experiment.copy() of an accepted experiment whose (symbolic-index) schedule may use every list: the copy is accepted too, holds
+    the same objects in lists of the same lengths (all FIVE attributes -- states, povms, gates, mprocesses, schedules), its lists are
+    not the original's list objects, and a schedule the original accepts is accepted by the copy's schedule setter"""
+    sz = dict(zip(LISTS, sizes))
+
+    def run(I):
+        import quara.qcircuit.experiment as E
+        kinds = ["state"] + [["gate", "mprocess"][int(I[f"k{j}"])] for j in range(1, L - 1)] + [["povm", "mprocess"][int(I[f"k{L - 1}"])]]
+        idx = [I[f"i{j}"] for j in range(L)]
+        sched = [(k, i) for k, i in zip(kinds, idx)]
+        import tomo_lib, objlib
+        pool = {"state": tomo_lib.states("Q1"), "povm": tomo_lib.povms("Q1"), "gate": list(objlib.gates("Q1").values()),
+                "mprocess": list(objlib.mprocesses("Q1").values())}
+        marks = {k: list(pool[k][:sz[k]]) for k in LISTS}
+        res, exp = try_accept(E, lambda: E.Experiment(schedules=[sched], states=list(marks["state"]), povms=list(marks["povm"]),
+                                                      gates=list(marks["gate"]), mprocesses=list(marks["mprocess"])))
+        if res != "accept":
+            return [Holds("accepted <=> well-formed", iff(False, spec_accepts(kinds, idx, sz)))]
+        res2, cp = try_accept(E, lambda: exp.copy())
+        out = [Holds("the copy of an accepted experiment is accepted", res2 == "accept")]
+        if res2 != "accept":
+            return out
+        for k, attr in (("state", "states"), ("povm", "povms"), ("gate", "gates"), ("mprocess", "mprocesses")):
+            got = list(getattr(cp, attr))
+            out.append(Holds(f"copy.{attr} holds the same objects", len(got) == len(marks[k]) and all(a is b for a, b in zip(got, marks[k]))))
+            out.append(Holds(f"copy.{attr} is its own list", getattr(cp, attr) is not getattr(exp, attr)))
+        out.append(Holds("copy.schedules equal the original's", [list(map(tuple, s_)) for s_ in cp.schedules] == [list(map(tuple, s_)) for s_ in exp.schedules]))
+        res3, _ = try_accept(E, lambda: setattr(cp, "schedules", [list(sched), list(sched)]))
+        out.append(Holds("the copy's schedule setter accepts what the original accepted", res3 == "accept"))
+        return out
+    inputs = [(f"k{j}", "int", 0, 1) for j in range(1, L)] + [(f"i{j}", "int", None, None) for j in range(L)]
+    return FnOb(inputs, run, max_paths=20000, explore_budget=300, tv_points=3)
+
+
 MALFORMED = {
     "arity1": lambda i: ("state",), "arity3": lambda i: ("state", i, 0), "list_item": lambda i: ["state", i],
     "float_index": lambda i: ("state", 0.0), "bool_index": lambda i: ("state", True), "none_index": lambda i: ("state", None),
@@ -307,6 +342,7 @@ def obligations(tier):
         for s in szs:
             for pos in (["alone"] if L != 2 else ["alone", "after", "before"]):
                 out += specs("C20.exp.ctor", [{"L": L, "sizes": list(s), "pos": pos}], ob_exp_ctor, 1 + L * L)
+    out += specs("C20.exp.copy", [{"L": L, "sizes": sz} for L, sz in tiers(tier, [(3, [1, 2, 2, 2])], [(3, [1, 2, 2, 2]), (4, [1, 2, 2, 2]), (4, [2, 1, 0, 3])])], ob_exp_copy, 10)
     if tier == "thorough":
         out += specs("C20.exp.ctor", [{"L": 5, "sizes": [1, 1, 1, 1], "pos": "alone"}, {"L": 5, "sizes": [2, 1, 0, 1], "pos": "alone"}], ob_exp_ctor, 40)
     for w in MALFORMED:
